@@ -11,6 +11,8 @@ UmGen/MetaConsts.lean:
     `epoch` before `meta_map`;
   * `replLoadRejectsEqual` / `replLockRejectsEqual` — the two epoch tests of
     `ReplicatorManager::update_replicators` (`updating_epoch.load() >= epoch`, `epoch <= replicators.0`);
+  * `replInstallStoresUpdating` — pinned `true`: the install is directly followed, inside the write-locked
+    section and without a scheduling point of its own, by `updating_epoch.store(epoch)` (fix of F05a);
   * `replPoints` — the names of the scheduling points in `update_replicators`, in program order
     (the harness parks OS threads exactly there; the model's program counter prints these names).
 Any other shape of these fragments is refused (ExtractError ⇒ broken tie).
@@ -131,7 +133,12 @@ def gen_metaconsts():
                    r"self\.updating_epoch \.store\(replicators\.0, atomic::Ordering::SeqCst\); return Err\(ClusterMetaError::OldEpoch\); \}", b)
     m3 = re.search(r"self\.updating_epoch\.store\(epoch, atomic::Ordering::SeqCst\);", b)
     m4 = re.search(r"self\.replicators\.read\(\)\.1\.iter\(\)", b)
-    m5 = re.search(r"\*replicators = \(epoch, new_replicators\);", b)
+    # the install, followed inside the write-locked section by the repair of `updating_epoch`
+    # (fix be85753 of finding F05a); the repaired shape is pinned: without the store the model is wrong
+    m5 = re.search(r"\*replicators = \(epoch, new_replicators\); self\.updating_epoch\.store\(epoch, atomic::Ordering::SeqCst\); \} Ok\(\(\)\)", b)
+    if not m5:
+        raise ExtractError(f"{p}: update_replicators: `*replicators = (epoch, new_replicators);` is not directly followed, "
+                           f"inside the write-locked block, by `self.updating_epoch.store(epoch, SeqCst);` (F05a fix missing or moved)")
     if not (m1 and m2 and m3 and m4 and m5):
         raise ExtractError(f"{p}: update_replicators: load test / store / read / locked re-check / install not recognised")
     # each point must directly precede its access, in program order
@@ -141,7 +148,7 @@ def gen_metaconsts():
     want = [pos[0], acc[0], pos[1], acc[1], pos[2], acc[2], pos[3], acc[3], m5.start()]
     if order != want:
         raise ExtractError(f"{p}: update_replicators: scheduling points and shared accesses are not interleaved as known")
-    if b.count("self.updating_epoch") != 3 or b.count("self.replicators.") != 2:
+    if b.count("self.updating_epoch") != 4 or b.count("self.replicators.") != 2 or b.count("verif_hook::point") != 4:
         raise ExtractError(f"{p}: update_replicators: unexpected number of shared-variable accesses")
     hv = re.findall(r"for meta in (masters|replicas)\.iter\(\) \{ if Some\(true\) != extract_host_from_address\(meta\.(master|replica)_node_address\.as_str\(\)\) "
                     r"\.map\(\|host\| host == announce_host\) \{ return Err\(ClusterMetaError::NotMyMeta\); \} \}", b)
@@ -151,6 +158,8 @@ def gen_metaconsts():
     out.append(f"def replLoadRejectsEqual : Bool := {'true' if m1.group(1) == '>=' else 'false'}  -- {p}")
     out.append(f"/-- `epoch <= replicators.0` (true) or `< replicators.0` (false) -/")
     out.append(f"def replLockRejectsEqual : Bool := {'true' if m2.group(1) == '<=' else 'false'}  -- {p}")
+    out.append(f"/-- the install under the write lock is followed, in the same locked section, by `updating_epoch.store(epoch)` -/")
+    out.append(f"def replInstallStoresUpdating : Bool := true  -- {p}")
     out.append("def replPoints : List String := [" + ", ".join(lean_str(n) for n in pts) + f"]  -- {p}")
     return "\n".join(out) + "\n\nend Um.Gen.Meta\n"
 
